@@ -56,6 +56,7 @@ import contextlib
 import copy
 import dataclasses
 import dis
+import gc
 import importlib
 import inspect
 import itertools
@@ -959,10 +960,20 @@ def _life_job(job):
 # ======================================================================================
 
 
+IPYTHON_REPLAY_SESSION = 40
+
+
 def _ipython_job(job):
     """Cells = S2 modules; transformation goes through IPython's transform_ast
     after '%jaxtyping.typechecker vf.fixtures.spy.A'; static oracles (ii)/(iii)
-    on every cell, run_cell vs plain exec on the cells flagged for execution."""
+    on every cell, run_cell vs plain exec on the cells flagged for execution.
+
+    The magic registers ONE transformer that IPython applies to every later cell, so all cells
+    of a job go through the same transformer object, one after the other (a session of len(items)
+    cells after one magic).  The trees of a cell are dropped before the next cell is parsed (and
+    after an executed cell a full garbage collection runs), so the next cell's nodes are allocated
+    where the previous cells' nodes were: whatever the transformer remembers about earlier trees
+    meets recycled objects here."""
     common.bind_repo()
     E = env()
     stats = dict_counter()
@@ -987,7 +998,9 @@ def _ipython_job(job):
             raise common.HarnessError(f"magic registered {len(trs)} JaxtypingTransformer(s)")
         # the magic builds its own Typechecker; the registered callable is looked up through the real hash
         base_keys = set(shell.user_ns)
+        orig = work = res = None
         for seq, k, nest, do_exec in job["items"]:
+            orig = work = res = None  # the previous cell's trees are gone before this cell is parsed
             src, plan = gen_source(seq, k, nest)
             try:
                 compile(src, FNAME, "exec", dont_inherit=True)
@@ -995,6 +1008,8 @@ def _ipython_job(job):
                 stats["rejected"] += 1
                 continue
             stats["cells"] += 1
+            if stats["cells"] > 1:
+                stats["cells_transformed_by_a_transformer_that_has_seen_earlier_cells"] += 1
             orig = shell.compile.ast_parse(src)
             work = shell.compile.ast_parse(src)
             res = shell.transform_ast(work)
@@ -1037,6 +1052,8 @@ def _ipython_job(job):
                         x = next(((p, q) for p, q in itertools.zip_longest(a[what] or [], b[what] or []) if p != q), (a[what], b[what]))
                         fnd.append((f"ipython-exec-{what}", f"plain {x[0]!r:.160} vs cell {x[1]!r:.160}"))
                         break
+                orig = work = res = None
+                gc.collect()  # what run_cell left behind in reference cycles (frames, tracebacks, the cell's trees) is freed for good
             for orc, detail in fnd:
                 viols.append(_viol_gen(seq, k, nest, "ipython", orc, detail))
     finally:
@@ -1326,6 +1343,9 @@ def run(ctx):
         lifecycle_phases=LIFE_PHASES,
         ipython_cells=ip.get("cells", 0),
         ipython_cells_executed=ip.get("cells_executed", 0),
+        ipython_cells_transformed_by_a_transformer_that_has_seen_earlier_cells=ip.get("cells_transformed_by_a_transformer_that_has_seen_earlier_cells", 0),
+        ipython_sessions="one magic per job, then all cells of the job through the transformer it registered (" + str(len([j for j in jobs if j[0] == "ipython"])) + " sessions of up to "
+        + str(max([len(j[1]["items"]) for j in jobs if j[0] == "ipython"] or [0])) + " cells); the trees of a cell are dropped before the next cell is parsed, full garbage collection after every executed cell",
         decorators_checked=sum(d.get("decorators_checked", 0) for d in (c, g, ip)),
         decorator_roots_on_def_line=sum(d.get("decorator_roots_on_def_line", 0) for d in (c, g)),
         code_object_pairs=c.get("code_pairs", 0) + g.get("code_pairs", 0),
@@ -1424,8 +1444,9 @@ def replay(rep):
             shutil.rmtree(tmp, ignore_errors=True)
         return dict(violates=bool(fnd), source=src, findings=[list(f) for f in fnd], phases=LIFE_PHASES)
     if rep.get("route") == "ipython":
-        st, vs, _ = _ipython_job(dict(items=[(seq, k, list(nest), True)]))
-        return dict(violates=bool(vs), source=src, findings=[v["what"] for v in vs])
+        # the cell as the 1st, 2nd, ... IPYTHON_REPLAY_SESSION-th cell after one magic (same transformer object for all of them)
+        st, vs, _ = _ipython_job(dict(items=[(seq, k, list(nest), True)] * IPYTHON_REPLAY_SESSION))
+        return dict(violates=bool(vs), source=src, cells_in_session=IPYTHON_REPLAY_SESSION, findings=[v["what"] for v in vs][:10])
     r = check_static(E, src.encode(), FNAME, [rep["tc"]], stats)
     if r[0] == "rejected":
         return dict(violates=False, source=src, note="compile() rejects the module")
